@@ -88,7 +88,7 @@ func C17pool(p *load.Program, run *report.Run) {
 	run.Rule("no-use-after-put", "after pool.Put(x) no value derived from x is read, written or returned on any path")
 	run.Rule("put-sites", "a scratch held in a struct field is returned to the pool only where that field is cleared on every path afterwards")
 	run.Rule("release-idempotent", "Release: the nil-pool guard dominates Put, and pool, scratch, Wires and Gates are cleared on every path after Put")
-	run.Rule("slab-size", "the rows garbleScratchPool reserves per operation equal the rows Gate.garbleInto produces for it")
+	run.Rule("slab-size", "the rows garbleScratchPool reserves per operation are at least the rows Gate.garbleInto produces for it")
 	pkg, err := p.Pkg("circuit")
 	if err != nil {
 		run.Undecided("anchor", "circuit", "", err.Error())
@@ -344,6 +344,17 @@ func C17pool(p *load.Program, run *report.Run) {
 		}
 		return false
 	})
+	if len(reserved) == 0 {
+		// no switch over the operation (the gates are counted in a histogram, or in some other way): the loop is
+		// interpreted per operation instead
+		if gsp, err := p.Method("circuit", "Circuit", "garbleScratchPool"); err == nil {
+			run.Rule("O8-slab", "per operation, what one gate adds to the size of the scratch slab in garbleScratchPool (the loop body interpreted on a gate of that operation; a histogram of operations weighed by a function is followed through that function) is at least the rows garbleInto emits for it")
+			slabDeltas(p, run, gsp, whole)
+			run.Count("slab-ops", 5)
+			run.Floor("slab-ops", 5)
+			return
+		}
+	}
 	for op := 0; op < 5; op++ {
 		max := -1
 		for pa := 0; pa < 2; pa++ {
@@ -361,7 +372,7 @@ func C17pool(p *load.Program, run *report.Run) {
 			run.Undecided("slab-size", key, p.Rel(fd.Pos()), "rows of garbleInto not derived")
 		case !has && max > 0:
 			run.Violate("slab-size", key, p.Rel(fd.Pos()), fmt.Sprintf("no slab space is reserved for %s, which produces %d rows", opNames[op], max), nil)
-		case int64(max) != r:
+		case int64(max) > r:
 			run.Violate("slab-size", key, p.Rel(fd.Pos()), fmt.Sprintf("%d rows reserved, garbleInto produces %d", r, max), nil)
 		default:
 			run.OK("slab-size", key, p.Rel(fd.Pos()), fmt.Sprintf("%d rows", max))
